@@ -724,6 +724,32 @@ def check_spellings(ctx, cases, exps):
     return len(groups)
 
 
+def redefinition_cases():
+    L = lambda b: {"k": "lit", "s": list(b), "ci": False, "neg": False}
+    loop = lambda mn, mx, body: {"k": "loop", "min": mn, "max": mx, "few": False, "name": "", "body": body}
+    ref = lambda name: {"k": "ref", "name": name}
+    find = lambda body, **kw: dict({"kind": "find", "amt": {"k": "all"}, "body": body}, **kw)
+    D = lambda name, es, pred=(): {"name": name, "es": es, "pred": list(pred)}
+    bodies = [[L(b"a")], [L(b"b")], [L(b"a"), loop(0, 1, L(b"b"))], [{"k": "or", "l": L(b"a"), "r": L(b"b")}], [loop(1, -1, L(b"b"))]]
+    uses = [[ref("s")], [ref("s"), ref("s")], [loop(1, -1, ref("s"))], [L(b"b"), ref("s")]]
+    cases = []
+    for i, b1 in enumerate(bodies):
+        for j, b2 in enumerate(bodies):
+            if i == j:
+                continue
+            for u in uses:
+                # set s = b1; use; set s = b2; use; use again
+                cases.append({"id": len(cases) + 1, "defs": [D("s", b1)],
+                              "cmds": [find(u), find(u, defs_before=[D("s", b2)]), find([ref("s")])],
+                              "sigma": [97, 98], "lo": 1, "hi": 4})
+            # an unrelated definition in between, and a third definition
+            cases.append({"id": len(cases) + 1, "defs": [D("s", b1)],
+                          "cmds": [find([ref("s")]), find([ref("t"), ref("s")], defs_before=[D("t", b2)]),
+                                   find([ref("s"), ref("t")], defs_before=[D("s", b2), D("t", b1)])],
+                          "sigma": [97, 98], "lo": 1, "hi": 4})
+    return cases
+
+
 def setmatches_cases():
     L = lambda b: {"k": "lit", "s": list(b), "ci": False, "neg": False}
     anyc = {"k": "cls", "c": "any", "neg": False}
@@ -767,6 +793,8 @@ def c13(ctx):
     # `set x to matches <command>` between commands: compiled, inert, and without effect on its neighbours
     sm = setmatches_cases()
     ctx.replay("C13-set-matches", sm, FIELDS["C13"], reject_violation=True)
+    # definitions between the commands: a name redefined after a use (each command sees the definition before it)
+    ctx.replay("C13-redefinition", redefinition_cases(), FIELDS["C13"], reject_violation=True)
     # the relocation of stored global code, on the specification: every command of every program
     vmcases = []
     for c in cases:
@@ -875,6 +903,45 @@ RULES["C10"] = ("programs: C10_Bodies of spec/Scope.tla: loops {maybe, at least 
                 "the model needs more than 20 instructions")
 
 
+def process_loop_cases():
+    N = lambda v: {"k": "num", "v": v}
+    V = lambda x: {"k": "var", "name": x}
+    S = lambda b: {"k": "str", "v": list(b)}
+    B = lambda op, l, r: {"k": "bin", "op": op, "l": l, "r": r}
+    Set = lambda x, e: {"k": "set", "name": x, "e": e}
+    Ret = lambda e: {"k": "ret", "e": e}
+    If = lambda c, th, el=(): {"k": "if", "c": c, "th": list(th), "el": list(el)}
+    Loop = lambda *b: {"k": "loop", "body": list(b)}
+    Brk, Cont = {"k": "brk"}, {"k": "cont"}
+    inc = Set("i", B("+", V("i"), N(1)))
+    bodies = [
+        [Set("i", N(0)), Loop(inc, If(B(">", V("i"), N(3)), [Brk]), Cont), Ret(V("i"))],
+        [Set("i", N(0)), Set("s", S(b"")), Loop(inc, If(B(">", V("i"), N(4)), [Brk]), If(B("==", B("%", V("i"), N(2)), N(0)), [Cont]),
+                                                Set("s", B("+", V("s"), V("i")))), Ret(V("s"))],
+        [Set("i", N(0)), Loop(If(B("<", V("i"), V("matchLength")), [inc, Cont]), Brk), Ret(V("i"))],
+        [Set("i", N(0)), Set("j", N(0)), Loop(inc, If(B(">", V("i"), N(2)), [Brk]),
+                                               Loop(Set("j", B("+", V("j"), N(1))), If(B("<", V("j"), B("*", V("i"), N(2))), [Cont]), Brk), Cont),
+         Ret(B("+", B("*", V("i"), N(10)), V("j")))],
+        [Set("i", N(0)), Loop(inc, If(B("==", V("i"), N(1)), [Cont], [If(B("==", V("i"), N(2)), [Cont], [Brk])])), Ret(V("i"))],
+        [Set("t", V("match")), Set("n", N(0)), Loop(If(B("==", V("t"), S(b"")), [Brk]), Set("t", {"k": "un", "op": "tail", "e": V("t")}),
+                                                   Set("n", B("+", V("n"), N(1))), Cont), Ret(V("n"))],
+    ]
+    anyc = {"k": "cls", "c": "any", "neg": False}
+    lp = {"k": "loop", "min": 1, "max": -1, "few": False, "name": "", "body": {"k": "lit", "s": [97], "ci": False, "neg": False}}
+    cases = []
+    for b in bodies:
+        cases.append({"id": len(cases) + 1, "defs": [], "trans": [{"name": "f", "stmts": b}], "ctx": "trans",
+                      "cmds": [{"kind": "replace", "amt": {"k": "all"}, "body": [lp], "with": [{"k": "name", "name": "f"}]}],
+                      "texts": [[97], [97, 97, 98, 97], [98], [97, 97, 97, 97, 97]]})
+    # the same loops deciding a predicate
+    for b in bodies[:3]:
+        pb = b[:-1] + [Ret(B(">", b[-1]["e"], N(1)) if b is not bodies[1] else B("==", b[-1]["e"], S(b"13")))]
+        cases.append({"id": len(cases) + 1, "defs": [{"name": "p", "es": [lp], "pred": pb}], "ctx": "pred",
+                      "cmds": [{"kind": "find", "amt": {"k": "all"}, "body": [{"k": "ref", "name": "p"}]}],
+                      "texts": [[97], [97, 97, 98, 97], [98, 97, 97, 97]]})
+    return cases
+
+
 @check("C10")
 def c10(ctx):
     ctx.technique = ("termination of spec/VM.tla model-checked (StepBound safety form; liveness <>done under weak fairness in "
@@ -887,6 +954,8 @@ def c10(ctx):
     rep = ctx.replay("C10-budget", cases, FIELDS["C10"], exps=exps, extra=["-budget-mul", "20"], timeout=20)
     ctx.nontrivial = nontriv
     ctx.diagnostics["max_model_steps"] = max(r["steps"] for e in exps for r in e["r"])
+    # process code with bounded loops (break, continue, nested, inside if): terminates with the specification's value
+    ctx.replay("C10-process-loops", process_loop_cases(), ["hang", "crash", "panic", "spans", "repl", "budget"], timeout=20)
     # sensitivity: without the zero-width guard the model spins
     sens = [c for c in cases if c["id"] % 60 == 0]
     mc_vm(ctx, "sens-NoZeroWidthGuard", cap_texts(sens, hi_cap=2), dev=["NoZeroWidthGuard"], expect="StepBound", max_steps=500,
